@@ -309,6 +309,46 @@ func checkC04(c *Ctx) {
 			rf.Check(okp, f.Name(), "path to "+p.Pos(pr.Exit), pr.Exit, "forwards / reports ErrInvalidTransaction", "a path through (*DB)."+name+" neither calls the pool's "+name+" nor reports ErrInvalidTransaction: the transaction silently stays open", "facts: "+strings.Join(pr.Facts.List(), ", "))
 		}
 		rf.Check(drv > 0, f.Name(), "forwarding path exists", f.Body.Pos(), "calls the pool's "+name, "(*DB)."+name+" never calls the pool's "+name)
+		// the pool's verdict is recorded unconditionally: the call is the argument of AddError, or its result
+		// reaches AddError on every path (no error value of the pool is filtered out)
+		gsf := p.Guards(f, nil)
+		for _, call := range callsIn(f) {
+			fn, _ := typeutil.Callee(finfo, call).(*types.Func)
+			k, _, okd := p.driverCallee(fn)
+			if !okd || !((name == "Commit" && k == DrvCommit) || (name == "Rollback" && k == DrvRollback)) {
+				continue
+			}
+			recorded := false
+			for _, oc := range callsIn(f) {
+				if ofn, _ := typeutil.Callee(finfo, oc).(*types.Func); ofn != nil && ofn.Name() == "AddError" && len(oc.Args) == 1 && unparen(oc.Args[0]) == ast.Expr(call) {
+					recorded = true
+				}
+			}
+			if !recorded {
+				if id := assignedLocal(f, call); id != nil {
+					okp, _ := gsf.MustPass(call.Pos(), func(n ast.Node) bool {
+						found := false
+						ast.Inspect(n, func(x ast.Node) bool {
+							if oc, ok := x.(*ast.CallExpr); ok {
+								if ofn, _ := typeutil.Callee(finfo, oc).(*types.Func); ofn != nil && ofn.Name() == "AddError" && len(oc.Args) == 1 {
+									if aid, ok := unparen(oc.Args[0]).(*ast.Ident); ok && finfo.ObjectOf(aid) == finfo.ObjectOf(id) {
+										found = true
+									}
+								}
+							}
+							return true
+						})
+						// the condition node of an `if` that merely contains the call in its init does not count
+						if _, isIf := n.(*ast.IfStmt); isIf {
+							return false
+						}
+						return found
+					})
+					recorded = okp
+				}
+			}
+			rf.Check(recorded, f.Name(), "the pool's "+name+" error is recorded", call.Pos(), "AddError on every path", "(*DB)."+name+" filters the error returned by the pool's "+name+" (some path does not record it): a "+strings.ToLower(name)+" that did not happen - the transaction was already finished, the connection is gone - is reported as success")
+		}
 	}
 	for _, name := range []string{"Commit", "Rollback"} {
 		f := p.MethodDecl(pkgGorm, "PreparedStmtTX", name)
